@@ -376,8 +376,8 @@ impl ClusterHandler for GenCommHandler<'_> {
 
             CommissioningErrorEnum::map(ctx.exchange().with_state(|state| {
                 let sess = ctx.exchange().id().session(&mut state.sessions);
-                let pase_sess_id =
-                    matches!(sess.get_session_mode(), SessionMode::Pase { .. }).then(|| sess.id());
+                // The session this request came in on must survive until the response is out
+                let pase_sess_id = Some(sess.id());
 
                 if state.failsafe.is_armed() {
                     // Only the context that armed the fail-safe may force it to expire;
@@ -394,6 +394,15 @@ impl ClusterHandler for GenCommHandler<'_> {
                     notify_mdns,
                     notify_change,
                 )?;
+
+                #[cfg(feature = "case-resumption")]
+                if let Some(fab_idx) = removed_fabric {
+                    state.resumption.remove_for_fabric(fab_idx);
+                    ctx.exchange()
+                        .matter()
+                        .transport()
+                        .notify_resumption_dirty();
+                }
 
                 Ok(())
             }))?
